@@ -395,6 +395,33 @@ def run(prog, rep):
             if re.search(r"(upvar|arg):\w+\.full_match_(stanza|file)_capture_index$", src):
                 preds.append((c, "filter_map: None iff index == " + src))
                 good.append(preds[-1][1])
+        # loop form: `for name in query.capture_names() { let index = …; if index != full_capture_index { captures.push((name, q, index)) } }`
+        loopy = 0
+        from ..lib.cfgq import natural_loops
+        for g_ in [f] + prog.all_closures_under(f):
+            gb_, gtr_ = g_.body, Tracer(g_.body)
+            for b, t in gb_.calls():
+                if not is_callee(t, r"Vec::<T, A>::push$"):
+                    continue
+                item = strip(gtr_.operand(t["args"][1]))
+                if not (item[0] == "agg" and item[1] == "tuple" and len(item[5]) == 3):
+                    continue
+                idx = canon(strip(item[5][2]))
+                if "Query::capture_index_for_name(" not in idx or not [1 for h_, bl_ in natural_loops(gb_) if b in bl_]:
+                    continue
+                from ..lib.cfgq import dominating_guards as _dg, guard_cases as _gc
+                rel = []
+                for g2 in _dg(gb_, gtr_, b):
+                    for cond, val in _gc(g2):
+                        c2 = canon(cond) if cond is not None else ""
+                        if "capture_index_for_name" in c2 and re.search(r"full_match_(stanza|file)_capture_index", c2):
+                            rel.append((c2, val))
+                if len(rel) == 1 and re.match(r"^\(.*Query::capture_index_for_name\(.*\) (Ne|Eq) cast\(\*+(arg|upvar):\w+\.full_match_(stanza|file)_capture_index\)\)$", rel[0][0]) \
+                        and ((" Ne " in rel[0][0]) == (rel[0][1] is True)):
+                    loopy += 1
+                    good.append("loop: pushed iff index != full-match index")
+                    preds.append((g_, good[-1]))
+                    filters.append(t)
         nv += len(good)
         rep.check(len(preds) == len(good) and len(filters) == len(good) and good, "C03.V", "%s :: exposed captures" % f.id, f.loc(), "%d visitor construction(s): captures filtered by `index != full-match index` only" % len(good),
                   "the visitor hides captures by another criterion than the full-match index (predicates: %s; %d filtering adaptors)" % ([r[:80] for c, r in preds], len(filters)))
